@@ -113,6 +113,9 @@ func c03(r *rep.Run) {
 		var nb, nt, tr, ex int64
 		drive.ForBindings(Doms(p.Vars, true), vals, func() bool {
 			nb++
+			if nb%512 == 0 {
+				r.Note(w, p.Src) // progress within one program (many bindings)
+			}
 			for k := range cs {
 				if trees[k] == nil {
 					continue
